@@ -24,6 +24,9 @@ const (
 )
 
 func init() {
+	mutant(&Mutant{Name: "c11-minified-payload-used-only-when-shorter", Property: "C11", File: "common.go",
+		Old: "\tdata, _ = m.Bytes(string(mediatype), data)\n", New: "\tif minified, err := m.Bytes(string(mediatype), data); err == nil && len(minified) < len(data) {\n\t\tdata = minified\n\t}\n",
+		Rule: "R11.11", Construct: "is the payload that is encoded"})
 	mutant(&Mutant{Name: "c11-attribute-code-decoded-in-the-token-buffer", Property: "C11", File: "html/html.go",
 		Old: "m.MinifyMimetype(jsMimeBytes, attrMinifyBuffer, buffer.NewReader(decodeAttrVal(parse.Copy(val))), inlineParams)", New: "m.MinifyMimetype(jsMimeBytes, attrMinifyBuffer, buffer.NewReader(decodeAttrVal(val)), inlineParams)",
 		Rule: "R11.9", Construct: "decodes a copy of the attribute value"})
@@ -87,6 +90,7 @@ func runC11(c *Ctx) {
 	c.r115()
 	c.r118()
 	c.r119()
+	c.r1111("R11.11")
 	// a data URI rewritten inside url(…) must still be one URL token afterwards: same rule as R09.8
 	c.alsoUnder(map[string]string{"R09.8": "R11.6", "R09.9": "R11.7"}, nil, func() { c.r098() })
 	// the style sheet embedded in an SVG document reaches its minifier as written
